@@ -6,6 +6,41 @@ from . import gen, install, store, world
 from .core import substream
 
 
+class _FormatAndDrop(__import__('logging').Handler):
+    def emit(self, record):
+        try:
+            self.format(record)
+        except Exception:  # noqa
+            self.handleError(record)
+
+    def handleError(self, record):
+        raise
+
+
+def _debug_logging_on():
+    import logging
+    lg = logging.getLogger('replicat')
+    saved = (lg.level, lg.propagate, list(lg.handlers))
+    h = _FormatAndDrop()
+    lg.addHandler(h)
+    lg.setLevel(logging.DEBUG)
+    lg.propagate = False
+    return saved + (h,)
+
+
+def _debug_logging_off(saved):
+    import logging
+    lg = logging.getLogger('replicat')
+    lg.removeHandler(saved[3])
+    lg.setLevel(saved[0])
+    lg.propagate = saved[1]
+
+
+def debug_logging_active():
+    import logging
+    return logging.getLogger('replicat').isEnabledFor(logging.DEBUG)
+
+
 class World:
     def __init__(self, seed, check, *, flavour='sync', lat_kind='uniform', lat=0.01, list_order='sorted',
                  scratch=True):
@@ -28,6 +63,11 @@ class World:
         self.live = {}              # client name -> live process (Proc, repo, backend)
         self.live_renew = None      # hook: the adapter object of a live process starts its next command
         self.live_shared = False    # one program serves every user through ONE Repository object (unlock() switches)
+        # a fifth of the universes run with replicat's debug logging switched on (-vv, log-level = "debug", or a host
+        # program's logging configuration): every record is formatted and thrown away
+        self._logging_saved = None
+        if substream(seed, 'debug-logging').random() < 0.2:
+            self._logging_saved = _debug_logging_on()
 
     def end_all_live(self):
         for name in sorted(self.live):
@@ -36,6 +76,9 @@ class World:
 
     def close(self):
         self.end_all_live()
+        if self._logging_saved is not None:
+            _debug_logging_off(self._logging_saved)
+            self._logging_saved = None
         if self.dir is not None:
             world.remove_scratch(self.dir)
 
